@@ -38,8 +38,29 @@ def random_edit(rng, spec, state, kinds):
         n = rng.choice(ins + prods) if ins + prods else None
         if n is not None:
             return ["touch", n]
-    if k == "delete_input" and ins:
-        n = rng.choice(ins)
+    if k == "flag":          # untracked failure switch of one task (the body raises early while the file exists)
+        on = sorted(state.setdefault("flags", set()))
+        if on and rng.random() < 0.6:
+            t = rng.choice(on)
+            state["flags"].discard(t)
+            return ["flag", t, 0]
+        t = rng.choice([x["id"] for x in spec["tasks"]])
+        state["flags"].add(t)
+        return ["flag", t, 1]
+    if k == "swap":          # two inputs exchange their contents (preferably members of one hashed value group)
+        groups = [g["deps"] for x in spec["tasks"] for g in [x.get("pyhash_group")] if g]
+        pool = rng.choice(groups) if groups and rng.random() < 0.7 else ins
+        pool = [n for n in pool if state["inputs"].get(n) is not None]
+        if len(pool) >= 2:
+            a, b = rng.sample(pool, 2)
+            va, vb = state["inputs"][a], state["inputs"][b]
+            if va != vb and len(str(va)) == len(str(vb)):      # equal digit counts: see finding F3 (separator-less join)
+                state["old"].setdefault(a, []).append(va)
+                state["old"].setdefault(b, []).append(vb)
+                state["inputs"][a], state["inputs"][b] = vb, va
+                return [["write", a, vb], ["write", b, va]]
+    if k == "delete_input" and [n for n in ins if n not in spec.get("nodelete", [])]:
+        n = rng.choice([n for n in ins if n not in spec.get("nodelete", [])])
         state["old"].setdefault(n, []).append(state["inputs"].get(n))
         state["inputs"][n] = None
         return ["delete", n]
@@ -119,7 +140,9 @@ def random_history(rng, spec, nsteps, edit_kinds, build_cfgs, final_build=None):
             steps.append(["build", cfg])
         else:
             e = random_edit(rng, cur, state, edit_kinds)
-            if e is not None:
+            if e is not None and isinstance(e[0], list):      # a compound edit
+                steps.extend(e)
+            elif e is not None:
                 steps.append(e)
                 cur = apply_to_spec(cur, e)
     if final_build is not None:
